@@ -135,11 +135,11 @@ mod verif_kani {
     // ------------------------------------------------------------------
     fn stub_format(_a: std::fmt::Arguments<'_>) -> String { String::new() }
 
-    fn check_with_fetch(ncols: usize) {
+    fn check_with_fetch(ncols: usize, single_partition: bool) {
         let nr = any_prec();
         let fetch: Option<usize> = if kani::any() { Some(kani::any()) } else { None };
         let skip: usize = kani::any();
-        let n_partitions: usize = kani::any();
+        let n_partitions: usize = if single_partition { 1 } else { kani::any() };
         kani::assume(n_partitions >= 1);
         let ndv = any_prec();
         let nulls = any_prec();
@@ -170,7 +170,7 @@ mod verif_kani {
                             if remaining < fetch_val { remaining } else { fetch_val }
                         };
                         if !(untouched || (n > skip && n <= fetch_val && skip == 0)) {
-                            assert!(v as u128 == per as u128 * n_partitions as u128, "C29.with_fetch.exact_scaled_rows_no_wrap");
+                            assert!(Some(v) == per.checked_mul(n_partitions), "C29.with_fetch.exact_scaled_rows_no_wrap");
                         } else {
                             assert!(v == n, "C29.with_fetch.identity_case_keeps_rows");
                         }
@@ -209,21 +209,15 @@ mod verif_kani {
     #[kani::proof]
     #[kani::unwind(3)]
     #[kani::stub(std::fmt::format, stub_format)]
-    fn c29_with_fetch_rows() { check_with_fetch(0); }
-
-    #[kani::proof]
-    #[kani::unwind(3)]
-    #[kani::solver(kissat)]
-    #[kani::stub(std::fmt::format, stub_format)]
-    fn c29x_with_fetch_rows_kissat() { check_with_fetch(0); }
-    #[kani::proof]
-    #[kani::unwind(3)]
-    #[kani::solver(minisat)]
-    #[kani::stub(std::fmt::format, stub_format)]
-    fn c29x_with_fetch_rows_minisat() { check_with_fetch(0); }
+    fn c29_with_fetch_rows() { check_with_fetch(0, true); }
 
     #[kani::proof]
     #[kani::unwind(3)]
     #[kani::stub(std::fmt::format, stub_format)]
-    fn c29_with_fetch_one_column_bounded() { check_with_fetch(1); }
+    fn c29_with_fetch_rows_partitions() { check_with_fetch(0, false); }
+
+    #[kani::proof]
+    #[kani::unwind(3)]
+    #[kani::stub(std::fmt::format, stub_format)]
+    fn c29_with_fetch_one_column_bounded() { check_with_fetch(1, true); }
 }
